@@ -745,3 +745,57 @@ Lemma soft_update_vacuous_refuted_thm :
   exists online w, length (weights online) = length w /\
     ~ Forall2 Qeq (weights (soft_update 1 online (pinned_dqn_target w))) (weights online).
 Proof. exact (conj pinned_target_never_moves soft_update_vacuous_refuted_lemma). Qed.
+
+(* ================================================================ the pinned PER loss (weights column broadcast) *)
+Lemma rainbow_per_broadcast_refuted_lemma :
+  exists weights elems, length weights = length elems /\
+    ~ rb_loss_pinned_broadcast weights elems == rb_loss weights elems.
+Proof. exists [1 # 4; 1], [1; 3]. split; [reflexivity|]. vm_compute. discriminate. Qed.
+
+(* ---- why uniform weights hide it: with all importance weights equal the broadcast mean IS the weighted mean *)
+Lemma psum_app l m : psum (l ++ m) == psum l + psum m.
+Proof. unfold psum. induction l as [|x l IH]; cbn [app fold_right]; [ring|]. rewrite IH. ring. Qed.
+
+Lemma psum_scaled w : forall es, psum (map (fun e => e * w) es) == w * psum es.
+Proof. unfold psum. induction es as [|e es IH]; cbn [map fold_right]; [ring|]. rewrite IH. ring. Qed.
+
+Lemma psum_outer_const c es : forall ws, Forall (fun w => w == c) ws ->
+  psum (concat (map (fun w => map (fun e => e * w) es) ws)) == inject_Z (Z.of_nat (length ws)) * (c * psum es).
+Proof.
+  induction ws as [|w ws IH]; intros H.
+  - cbn. ring.
+  - inversion H as [|? ? Hw Hws]; subst. cbn [map concat]. rewrite psum_app, psum_scaled, IH by auto.
+    cbn [length]. rewrite Nat2Z.inj_succ. unfold Z.succ. rewrite inject_Z_plus. rewrite Hw. change (inject_Z 1) with 1. ring.
+Qed.
+
+Lemma length_outer (es : list Q) : forall ws : list Q,
+  length (concat (map (fun w => map (fun e => e * w) es) ws)) = (length ws * length es)%nat.
+Proof. induction ws as [|w ws IH]; cbn [map concat length]; [reflexivity|]. rewrite app_length, map_length, IH. reflexivity. Qed.
+
+Lemma psum_map2_const c : forall es ws, Forall (fun w => w == c) ws -> length ws = length es ->
+  psum (map2 Qmult es ws) == c * psum es.
+Proof.
+  unfold psum. induction es as [|e es IH]; intros [|w ws] H Hl; try discriminate; cbn [map2 fold_right]; [ring|].
+  inversion H as [|? ? Hw Hws]; subst. rewrite IH by (auto; cbn in Hl; congruence). rewrite Hw. ring.
+Qed.
+
+Lemma map2_length_eq {A B C} (f : A -> B -> C) : forall l m, length l = length m -> length (map2 f l m) = length l.
+Proof. induction l as [|a l IH]; intros [|b m] H; try discriminate; cbn; auto. Qed.
+
+Lemma qsum_psum l : qsum l == psum l.
+Proof. apply qsum_plain. Qed.
+
+Lemma rb_loss_pinned_equal_weights c ws es :
+  Forall (fun w => w == c) ws -> length ws = length es -> es <> [] ->
+  rb_loss_pinned_broadcast ws es == rb_loss ws es.
+Proof.
+  intros H Hl Hne. unfold rb_loss_pinned_broadcast, rb_loss, qmean, qlen.
+  rewrite !qsum_psum.
+  rewrite (psum_outer_const c es ws H). rewrite (psum_map2_const c es ws H Hl).
+  rewrite length_outer, map2_length_eq by auto. rewrite Hl, Nat2Z.inj_mul, inject_Z_mult.
+  assert (Hn : ~ inject_Z (Z.of_nat (length es)) == 0).
+  { destruct es; [congruence|]. cbn [length]. rewrite Nat2Z.inj_succ. unfold Z.succ.
+    intro E. apply Qeq_bool_iff in E. unfold Qeq_bool, Zeq_bool in E. cbn in E.
+    destruct (Z.of_nat (length es) + 1)%Z eqn:Z1; cbn in E; try discriminate. lia. }
+  set (n := inject_Z (Z.of_nat (length es))) in *. clearbody n. field. auto.
+Qed.
